@@ -1291,7 +1291,8 @@ fn main() {
         if case["schema_state"].is_string() {
             ctx.with_local(|l| run_schema_states(&mut w, &zones[0].1, l));
         } else if case["dnssec_family"].as_bool() == Some(true) {
-            ctx.with_local(|l| dnssecfam::run(&mut w, &alpha, &zones[0].1, &hist, l));
+            let zi = if case["dnssec_zone"].as_str() == Some(zones[KINDS_ZONE].0) { KINDS_ZONE } else { 0 };
+            ctx.with_local(|l| dnssecfam::run(&mut w, &alpha, &zones[zi].1, zones[zi].0, &hist, case["nsec3"].as_bool().unwrap_or(false), case["with_continuations"].as_bool().unwrap_or(true), l));
         } else if let Some(jv) = case["journal_variant"].as_str() {
             ctx.with_local(|l| {
                 let store1 = w.stores[0].clone();
@@ -1335,6 +1336,13 @@ fn main() {
         let za = zone_alphabet(zone, alpha.len());
         let mut hs: Vec<Vec<usize>> = vec![vec![]];
         hs.extend(seqs(za.len(), max_len).into_iter().map(|s| s.into_iter().map(|i| za[i]).collect::<Vec<usize>>()));
+        if zone == KINDS_ZONE && !thorough {
+            // quick: the four CNAME kinds added in the fourth seed round are crossed with each other
+            // only (every kind still occurs as single event and in two-event histories); thorough
+            // crosses all 30 kinds pairwise
+            let newer = |i: &usize| dnssecfam::QUICK_PAIR_KINDS[..4].contains(&alpha[*i].name);
+            hs.retain(|h| h.len() < 2 || newer(&h[0]) == newer(&h[1]));
+        }
         hists_total += hs.len();
         cases.extend(hs.into_iter().map(|h| (h, zone)));
     }
@@ -1378,7 +1386,7 @@ fn main() {
          Oracle: recovery Ok; recovered zone = state before or after the in-flight message of the crash-free run (content + serial); recovered \
          serial not below any serial answered before the stop (SOA query after every message and in-flight at every journal write point); \
          continuation: same rcode and same state as never crashed. Kinds family (both tiers): every single event and every ordered PAIR of \
-         events over the shared list vupd::kinds - one message per update-RR kind the live handler treats specially (ignored adds: non-apex \
+         events over the shared list vupd::kinds (30 events) - one message per update-RR kind the live handler treats specially (ignored adds: non-apex \
          SOA, apex SOA with lower / equal serial, CNAME over data, data over CNAME, duplicate RR, TTL-only change; skipped deletes: apex \
          SOA / NS RRset, apex SOA RR, last apex NS RR, delete-all at the apex, missing RR / RRset / name; the effective class IN / NONE / ANY \
          forms; messages mixing an ignored or skipped RR with an effective one) - from a zone with one apex NS, data at a.z. and a CNAME at \
@@ -1397,7 +1405,11 @@ fn main() {
          true with the key loaded after the start as the server binary does (load_keys: add key, secure_zone - every start re-signs and \
          bumps the serial): every history of <= 2 (thorough 3) events over an 8-event alphabet, a restart at every message boundary: restart \
          succeeds, content without RRSIG/NSEC/DNSKEY equals the live content, serial not below any answered serial, one further event gives \
-         the same rcode, content and serial advance as never stopped.",
+         the same rcode, content and serial advance as never stopped; KINDS part of (f) (seed C14-4: replay runs before the keys are loaded, \
+         so it sees no NSEC / RRSIG RRsets where the live zone has them): every kind of vupd::kinds incl. CNAME re-target, CNAME at a new \
+         name, host -> CNAME and CNAME -> host in one message, as single event x {NSEC, NSEC3} and as ordered pair (quick: 8 CNAME-related \
+         kinds x NSEC; thorough: all pairs x {NSEC, NSEC3}) on the kinds zone: the whole unsigned content after a restart at every message \
+         boundary equals the live content (differences keyed by the RR types that differ).",
     );
     ctx.assume("SQLite's atomic commit: a stop leaves exactly the rows a second connection can see at that moment (a prefix of the row sequence)");
     ctx.assume("the crash-free run of the same implementation is the reference for boundary states and continuations (C12 judges them against RFC 2136)");
@@ -1440,13 +1452,39 @@ fn main() {
         let dh = dnssecfam::histories(&alpha, if thorough { 3 } else { 2 });
         ctx.set("dnssec_journal_histories", json!(dh.len()));
         ctx.set("dnssec_journal_alphabet", json!(dnssecfam::DNSSEC_ALPHABET));
-        ctx.par_run_init(dh.len() as u64, 1, |wi| Worker::new(wi as usize), |i, l, w| {
-            dnssecfam::run(w, &alpha, &zones[0].1, &dh[i as usize], l);
+        // kinds part: singles x {NSEC, NSEC3}; ordered pairs: quick NSEC over the CNAME-related
+        // sub-list, thorough every pair x {NSEC, NSEC3}
+        let kev = dnssecfam::kinds_events(&alpha);
+        let mut kt: Vec<(Vec<usize>, bool)> = vec![];
+        for nsec3 in [false, true] {
+            kt.push((vec![], nsec3));
+            for a in &kev {
+                kt.push((vec![*a], nsec3));
+            }
+        }
+        let pair_kinds: Vec<usize> = if thorough { kev.clone() } else { kev.iter().cloned().filter(|i| dnssecfam::QUICK_PAIR_KINDS.contains(&alpha[*i].name)).collect() };
+        for nsec3 in if thorough { vec![false, true] } else { vec![false] } {
+            for a in &pair_kinds {
+                for b in &pair_kinds {
+                    kt.push((vec![*a, *b], nsec3));
+                }
+            }
+        }
+        ctx.set("dnssec_journal_kinds_histories", json!(kt.len()));
+        let n_dh = dh.len();
+        ctx.par_run_init((n_dh + kt.len()) as u64, 1, |wi| Worker::new(wi as usize), |i, l, w| {
+            let i = i as usize;
+            if i < n_dh {
+                dnssecfam::run(w, &alpha, &zones[0].1, zones[0].0, &dh[i], false, true, l);
+            } else {
+                let (h, nsec3) = &kt[i - n_dh];
+                dnssecfam::run(w, &alpha, &zones[KINDS_ZONE].1, zones[KINDS_ZONE].0, h, *nsec3, false, l);
+            }
         });
     }
     let _ = std::fs::remove_dir_all(tmp_root());
 
-    for class in ["dnssec:boundary-content-recovered", "dnssec:continuation-step-agrees", "journal-variant-recovers-alike:rowids-with-gaps", "journal-variant-recovers-alike:records-reencoded-uncompressed-upper-case", "stop:inside-initial-dump", "stop:at-message-boundary", "stop:inside-message-row-group", "continuation-step-agrees", "write-failure:stop-recovered", "write-failure:continuation-step-agrees"] {
+    for class in ["dnssec:boundary-content-recovered", "dnssec:nsec3:boundary-content-recovered", "dnssec:continuation-step-agrees", "journal-variant-recovers-alike:rowids-with-gaps", "journal-variant-recovers-alike:records-reencoded-uncompressed-upper-case", "stop:inside-initial-dump", "stop:at-message-boundary", "stop:inside-message-row-group", "continuation-step-agrees", "write-failure:stop-recovered", "write-failure:continuation-step-agrees"] {
         if ctx.outcome_count(class) == 0 {
             ctx.machinery_failure(&format!("vacuous run: outcome class {class} never exercised"));
         }
